@@ -57,6 +57,10 @@ def plan(tier, seed):
     per = n_e2e // k
     for i in range(k):
         shards.append({"kind": "e2e", "cases": {"start": i * per, "stop": (i + 1) * per}})
+    n_red = 16 if tier == "quick" else 320
+    for i in range(2):
+        shards.append({"kind": "redirect",
+                       "cases": {"start": i * n_red // 2, "stop": (i + 1) * n_red // 2}})
     return shards
 
 
@@ -281,9 +285,58 @@ def run_seq(ctx, idx):
                         evictions=evictions, file_objects=n_readers))
 
 
+def run_redirect(ctx, idx):
+    """A download link (temporary redirect) whose target object is replaced between two
+    openings in the same process: every new file object serves the object now behind it."""
+    from dclab import http_utils
+    from vmon.httpsrv import RangeServer, relax_timeouts, is_transport_timeout
+    relax_timeouts()
+    rng = ctx.rng(idx, salt=7)
+    srv = RangeServer()
+    try:
+        cs = int(rng.choice([64, 100, 1000, 4096]))
+        blobs = [rng.bytes(int(rng.integers(1, 6)) * cs + int(rng.integers(-1, 2)))
+                 for _ in range(3)]
+        for v, b in enumerate(blobs):
+            srv.put(f"/v{v}/data.bin", b)
+        url = srv.redirect("/latest/data.bin", "/v0/data.bin")
+        for v, blob in enumerate(blobs):
+            srv.redirect("/latest/data.bin", f"/v{v}/data.bin")
+            try:
+                hf = http_utils.HTTPFile(url, chunk_size=cs,
+                                         keep_chunks=int(rng.choice(KEEPS)))
+                n = len(blob)
+                ok_len = len(hf) == n if hasattr(hf, "__len__") else True
+                a = int(rng.integers(0, n))
+                hf.seek(a)
+                part = hf.read(int(rng.integers(1, n - a + 1)))
+                hf.seek(0)
+                whole = hf.read(n)
+            except Exception as exc:
+                if is_transport_timeout(exc):
+                    ctx.count("skipped_transport_timeout")
+                    return
+                raise
+            ok = bytes(whole) == blob and bytes(part) == blob[a:a + len(part)]
+            ctx.check("read_bytes", ok,
+                      lambda: {"link": "/latest/data.bin", "now_points_to": f"/v{v}",
+                               "size_now": n, "got_len": len(whole), "chunk_size": cs,
+                               "equals_an_earlier_object": [bytes(whole) == b for b in blobs]},
+                      message=f"the download link now points to object v{v}, a new file object "
+                              f"returned {len(whole)} bytes that are not those of v{v}")
+        ctx.count("redirect_histories")
+        ctx.mark_nontrivial(["redirect", idx])
+    finally:
+        srv.close()
+
+
 def run(spec, ctx):
     _State.ctx = ctx
     install()
+    if spec["kind"] == "redirect":
+        for idx in ctx.case_ids():
+            run_redirect(ctx, idx)
+        return
     if spec["kind"] == "seq":
         for idx in ctx.case_ids():
             run_seq(ctx, idx)
